@@ -179,6 +179,10 @@ def _a2b_hex(data):
 _SPECIAL = (9, 10, 11, 12, 13, 32, 43, 45, 95)   # whitespace, + - _  (the only non-digit bytes int() tolerates)
 
 
+def _isws(zc):
+    return z3.Or(z3.And(zc >= 9, zc <= 13), zc == 32)
+
+
 def _int(*a, **kw):
     """int(<bytes>, 16) for short byte strings with symbolic content; everything else -> stock model."""
     if len(a) == 2 and not kw:
@@ -206,13 +210,16 @@ def _int(*a, **kw):
                             for c in zs:
                                 v = v * 16 + _hexval(c)
                             return SymbolicInt(v)
-                        anyspecial = z3.Or(*[z3.Or(*[c == s for s in _SPECIAL]) for c in zs])
-                        if not space.smt_fork(anyspecial, probability_true=0.1):
-                            # some byte is neither a hex digit nor a character int() tolerates
-                            raise ValueError("invalid literal for int() with base 16")
-                        # rare region (whitespace / sign / underscore): use the real int() on concrete bytes
-                        concrete = bytes(realize(e) for e in elems)
-                        return int(concrete, 16)
+                        # forms int() tolerates around ONE hex digit in a 2-byte string: ws+digit, digit+ws, '+'/'-' + digit
+                        if len(zs) == 2:
+                            c0, c1 = zs
+                            ws0, ws1 = _isws(c0), _isws(c1)
+                            form = z3.Or(z3.And(ws0, _ishex(c1)), z3.And(_ishex(c0), ws1),
+                                         z3.And(z3.Or(c0 == 43, c0 == 45), _ishex(c1)))
+                            if space.smt_fork(form, probability_true=0.1):
+                                val = z3.If(_ishex(c1), z3.If(c0 == 45, -_hexval(c1), _hexval(c1)), _hexval(c0))
+                                return SymbolicInt(val)
+                        raise ValueError("invalid literal for int() with base 16")
     return int(*a, **kw)          # next patch layer: CrossHair's own int model
 
 
@@ -335,6 +342,88 @@ def _step_fn():
     return _STEP
 
 
+def hexpair(c0, c1):
+    with NoTracing():
+        z0, z1 = _z(c0), _z(c1)
+        space = context_statespace()
+        vals = []
+        for zc in (z0, z1):
+            hit = _lookup_hexchar(space, zc)
+            vals.append(hit[1] if hit is not None else _hexval(zc))
+        ok = z3.And(_ishex(z0), _ishex(z1))
+        return SymbolicBool(ok), SymbolicInt(vals[0] * 16 + vals[1])
+
+
+def is_hex(c):
+    with NoTracing():
+        zc = _z(c)
+        if z3.is_int_value(zc):
+            return chr(zc.as_long()) in "0123456789abcdefABCDEF"
+        return SymbolicBool(_ishex(zc))
+
+
+_SPLIT = {"space": None, "memo": {}}
+
+
+def _split16_z(space, zx):
+    """z3 terms (lo, hi) with zx == 256*hi + lo, 0 <= lo, hi <= 255: fresh per-path variables, memoised (call under NoTracing)"""
+    if _SPLIT["space"] is not space:
+        _SPLIT["space"] = space
+        _SPLIT["memo"] = {}
+    memo = _SPLIT["memo"]
+    hit = memo.get(zx.get_id())
+    if hit is not None and z3.eq(hit[0], zx):
+        return hit[1], hit[2]
+    n = len(memo)
+    lo, hi = z3.Int("crclo_%d" % n), z3.Int("crchi_%d" % n)
+    space.add(z3.And(lo >= 0, lo <= 255, hi >= 0, hi <= 255, zx == 256 * hi + lo))
+    memo[zx.get_id()] = (zx, lo, hi)
+    return lo, hi
+
+
+def split16(x):
+    """(lo, hi) bytes of a 16-bit value without div/mod terms"""
+    with NoTracing():
+        zx = _z(x)
+        if z3.is_int_value(zx):
+            v = zx.as_long()
+            return v % 256, v // 256
+        lo, hi = _split16_z(context_statespace(), zx)
+        return SymbolicInt(lo), SymbolicInt(hi)
+
+
+def lnot(x):
+    with NoTracing():
+        if isinstance(x, SymbolicBool):
+            return SymbolicBool(z3.Not(x.var))
+        if isinstance(x, SymbolicInt):
+            return SymbolicBool(x.var == 0)
+    return not x
+
+
+def crc_fold_all(stream, i):
+    """[crc16(stream[i:j]) for j in i..len]: same representation as the computeCRC contract / crc_fold (real value
+    while the slice is fully concrete, otherwise the uninterpreted step folded from the start of the slice)"""
+    elems = _elements(stream)
+    with NoTracing():
+        from spec.checksums import crc16_modbus
+        space = context_statespace()
+        f = _step_fn()
+        out = []
+        st = z3.IntVal(0xFFFF)
+        all_conc = True
+        for j in range(i, len(elems) + 1):
+            if j > i:
+                e = elems[j - 1]
+                if _is_sym(e):
+                    all_conc = False
+                st = f(st, _z(e))
+                if not all_conc:
+                    space.add(z3.And(st >= 0, st <= 65535))
+            out.append(crc16_modbus(bytes(elems[i:j])) if all_conc else SymbolicInt(st))
+        return out
+
+
 def crc_fold(data):
     """un-swapped CRC register after folding the uninterpreted step over data (harness-side reference)"""
     elems = _elements(data)
@@ -372,7 +461,8 @@ def _make_crc_contract(real):
             for e in elems:
                 st = f(st, _z(e))
                 space.add(z3.And(st >= 0, st <= 65535))
-            return SymbolicInt((st % 256) * 256 + st / 256)
+            lo, hi = _split16_z(space, st)
+            return SymbolicInt(lo * 256 + hi)
     return computeCRC
 
 
@@ -571,7 +661,7 @@ def install(INSTALLED, contracts=()):
     INSTALLED["models"].append("truthiness of symbolic bytes: fork on emptiness only (instead of concretising the length)")
     _bl.BytesLike._ch_swap_ascii_case = _swap_ascii_case
     INSTALLED["models"].append("hex characters produced by the hex models are remembered per path: upper(hexchar(n)) = HEXCHAR(n), hexval(hexchar(n)) = n (identities checked exhaustively for n in 0..15)")
-    INSTALLED["models"].append("int(<=2 symbolic bytes, 16): exact for hex digits and for bytes int() rejects; whitespace/sign/underscore region concretised and evaluated by the real int()")
+    INSTALLED["models"].append("int(<=2 symbolic bytes, 16): exact model incl. the forms int() tolerates (whitespace before/after one digit, sign + digit); validated against int() on all 65792 one- and two-byte strings")
     import struct
     _PATCH_REGISTRATIONS[struct.pack] = _struct_pack
     INSTALLED["models"].append("struct.pack('<N>s', bytes) = the bytes (padded/cut to N); struct.pack of a big-endian integer format applied to an int the harness composed from bytes returns those bytes (identity int.to_bytes(int.from_bytes(b)) == b)")
@@ -633,28 +723,33 @@ def validate_models(seed=0):
                      z3.simplify(z3.substitute(_hexchar(x % 16), (x, z3.IntVal(v)))).as_long()])
         if got != exp:
             bad.append(("b2a_hex", v, got))
-    # int(b, 16) on every 1- and 2-byte string: model region classification vs real int()
+    # int(b, 16) on every 1- and 2-byte string: the model's case analysis evaluated concretely vs the real int()
     def real_int(bs):
         try:
             return int(bs, 16)
         except ValueError:
             return None
+    HEX = set(b"0123456789abcdefABCDEF")
+    WS = {9, 10, 11, 12, 13, 32}
+    def hv(c):
+        return c - 48 if c <= 57 else (c - 55 if c <= 70 else c - 87)
+    def model_int(bs):
+        if all(c in HEX for c in bs):
+            v = 0
+            for c in bs:
+                v = v * 16 + hv(c)
+            return v
+        if len(bs) == 2:
+            c0, c1 = bs
+            if (c0 in WS and c1 in HEX) or (c0 in HEX and c1 in WS) or (c0 in (43, 45) and c1 in HEX):
+                return (-hv(c1) if c0 == 45 else hv(c1)) if c1 in HEX else hv(c0)
+        return None
     for c0 in range(256):
         for c1 in list(range(256)) + [None]:
             n += 1
             bs = bytes([c0]) if c1 is None else bytes([c0, c1])
-            allhex = all(chr(c) in "0123456789abcdefABCDEF" for c in bs)
-            special = any(c in _SPECIAL for c in bs)
-            r = real_int(bs)
-            if allhex:
-                v = 0
-                for c in bs:
-                    v = v * 16 + (c - 48 if c <= 57 else (c - 55 if c <= 70 else c - 87))
-                if r != v:
-                    bad.append(("int16", bs, r, v))
-            elif not special:
-                if r is not None:
-                    bad.append(("int16-reject", bs, r))
+            if model_int(bs) != real_int(bs):
+                bad.append(("int16", bs, real_int(bs), model_int(bs)))
     # bit ops
     rnd = random.Random(seed)
     a, b = z3.Int("a"), z3.Int("b")
